@@ -2,6 +2,8 @@ package props
 
 import (
 	"bytes"
+	"encoding/hex"
+	"encoding/json"
 	"fmt"
 	"image"
 	"runtime/debug"
@@ -18,8 +20,9 @@ import (
 
 func init() {
 	mc.Register(&mc.Check{
-		ID:    "C02",
-		Level: "fault_enumeration",
+		ID:               "C02",
+		Level:            "fault_enumeration",
+		CrashIsViolation: true,
 		Rule: "engines B+F (same input space as C03: tiny strings, every opcode x width combination x truncation, sequences, metadata shapes incl. adversarial counts/lengths, non-finite operands, every prefix and single-byte substitution of corpus files). " +
 			"Every input goes through Decode into a recorder, a real Encoder, a real Renderer over a recording rasteriser (two rectangles), DecodeViewBox and Disassemble. Invariants: no panic, termination (watchdog), input unmodified, error is nil or DecodeError, " +
 			"nothing delivered unless metadata valid, first call Reset, calls-1 <= bytes after metadata, <=4 segments per drawing op, <=2 other rasteriser calls per path op, prefix monotonicity (all prefixes for inputs <=48 bytes and all corpus prefixes). " +
@@ -33,12 +36,23 @@ func init() {
 			w.InFlight(func() string { return unit.Name + " " + hexShort(cur) })
 			unit.Each(func(b []byte) bool {
 				cur = b
+				if w.Journaling() {
+					w.JournalCase(func() string { return hex.EncodeToString(b) })
+				}
 				c02Check(w, st, b, unit.Name)
 				return !w.Expired()
 			})
 		},
-		Replay: bytesReplay(func(w *mc.W, b []byte, unit string) { c02Check(w, newC02State(), b, unit) }),
-		Post:   postDistinct(100),
+		Replay: func(w *mc.W, data json.RawMessage) error {
+			var cr struct{ Kind, Case string }
+			if json.Unmarshal(data, &cr) == nil && cr.Kind == "crash" {
+				b, _ := hex.DecodeString(cr.Case)
+				c02Check(w, newC02State(), b, "crash-replay") // dies again if the crash is real
+				return nil
+			}
+			return bytesReplay(func(w *mc.W, b []byte, unit string) { c02Check(w, newC02State(), b, unit) })(w, data)
+		},
+		Post: postDistinct(100),
 	})
 }
 
